@@ -445,7 +445,7 @@ PROPS = {
     'C07': dict(suites=[('schedule', 250, 6000), ('stress', 6, 20), ('history', 100, 2000, ('-adversarial',))],
                 cmps=[C('schedule', 'full', 'spec'), C('stress', 'full', 'spec'), C('history', 'dec', 'spec')]),
     # "rejected" presupposes that invalid configurations are rejected: acceptance over the exhaustive single-field configurations
-    'C08': dict(suites=[('history', 250, 6000), ('validatex', 2, 3), ('historyx', 3, 4)], cmps=[C('history', 'dec', 'spec'), C('validatex', 'accept', 'spec'), C('historyx', 'dec', 'spec')]),
+    'C08': dict(suites=[('history', 250, 6000), ('validatex', 2, 3), ('historyx', 3, 4), ('validate', 3000, 60000)], cmps=[C('history', 'dec', 'spec'), C('validatex', 'accept', 'spec'), C('historyx', 'dec', 'spec'), C('validate', 'accept', 'spec')]),
     # the diagnostics of every failing step, on the broad single-request generator as well as inside histories
     'C09': dict(suites=[('history', 250, 6000), ('pairs09', 3000, 100000), ('serve', 4000, 100000), ('servex', 1, 2), ('historyx', 3, 4)],
                 cmps=[C('history', 'dec', 'spec'), C('pairs09', 'full', 'spec'), C('serve', 'dec', 'spec'), C('servex', 'dec', 'spec'), C('historyx', 'dec', 'spec')]),
@@ -459,15 +459,15 @@ PROPS = {
     'C13': dict(suites=[('lex', 4000, 150000), ('lexx', 3, 4), ('ip6x', 3, 4), ('validatex', 2, 3)], cmps=[C('ip6x', 'full', 'tie', only=('pattern',)), C('ip6x', 'full', 'tie', only=('parse',)),
                                                                          C('lex', 'full', 'tie', only=('pattern',)), C('lex', 'full', 'tie', only=('parse',)),
                                                                          C('lexx', 'full', 'tie', only=('pattern',)), C('lexx', 'full', 'tie', only=('parse',)), C('validatex', 'full', 'tie')]),
-    'C14': dict(suites=[('acrh', 3000, 150000), ('serve', 2000, 50000), ('acrhx', 4, 5), ('servex', 1, 2)], cmps=[C('acrh', 'full', 'spec'), C('serve', 'bitsH', 'spec'), C('acrhx', 'full', 'spec'), C('servex', 'bitsH', 'spec')]),
+    'C14': dict(suites=[('acrh', 3000, 150000), ('serve', 2000, 50000), ('acrhx', 4, 5), ('servex', 1, 2), ('history', 60, 1500, ('-adversarial',))], cmps=[C('acrh', 'full', 'spec'), C('serve', 'bitsH', 'spec'), C('acrhx', 'full', 'spec'), C('servex', 'bitsH', 'spec'), C('history', 'dec', 'spec')]),
     # order independence of Origins is a property of the tree: its tie belongs to the check
     'C15': dict(suites=[('twins', 4000, 150000), ('validate', 2000, 50000), ('tree', 800, 30000), ('treex', 3, 4)],
                 cmps=[C('twins', 'full', 'spec'), C('validate', 'full', 'tie'), C('tree', 'treebits', 'spec'), C('treex', 'treebits', 'spec')]),
     # "debug off" is a state of the documented state machine (C09): histories belong to the check
     'C16': dict(suites=[('serve', 8000, 200000), ('history', 150, 4000), ('servex', 1, 2), ('historyx', 3, 4)], cmps=[C('serve', 'c16', 'tie'), C('history', 'c16h', 'tie'), C('servex', 'c16', 'tie'), C('historyx', 'c16h', 'tie')]),
     'C17': dict(suites=[('lex', 1000, 30000), ('tree', 500, 20000), ('acrh', 1000, 30000), ('validate', 1500, 50000),
-                        ('serve', 2000, 60000), ('errors', 50, 1000), ('history', 50, 1000), ('lexx', 3, 4), ('acrhx', 4, 5), ('treex', 3, 4), ('validatex', 2, 3), ('servex', 1, 2), ('ip6x', 3, 4), ('historyx', 3, 4)],
-                cmps=[C(s, 'panic', 'spec') for s in ('lex', 'tree', 'acrh', 'validate', 'serve', 'errors', 'history', 'lexx', 'acrhx', 'treex', 'validatex', 'servex', 'ip6x', 'historyx')]),
+                        ('serve', 2000, 60000), ('errors', 50, 1000), ('history', 50, 1000), ('lexx', 3, 4), ('acrhx', 4, 5), ('treex', 3, 4), ('validatex', 2, 3), ('servex', 1, 2), ('ip6x', 3, 4), ('historyx', 3, 4), ('schedule', 100, 2500)],
+                cmps=[C(s, 'panic', 'spec') for s in ('lex', 'tree', 'acrh', 'validate', 'serve', 'errors', 'history', 'lexx', 'acrhx', 'treex', 'validatex', 'servex', 'ip6x', 'historyx', 'schedule')]),
     'C18': dict(suites=[('allocs', 1, 2), ('serve', 1000, 20000)], cmps=[C('allocs', 'full', 'spec'), C('serve', 'dec', 'tie')], level='other',
                 explanation='PARTIAL (category other): a Lean cost-model theorem (at most 4 allocating header primitives per request, independent of all sizes), '
                             'regenerated loop/install facts proved by decide (no allocating construct and only allow-listed callees inside loops on the request path), and measured conformance: '
